@@ -138,7 +138,7 @@ def run(ctx):
             # the one item the command is about: everything else the spa holds for its devices must read as before
             target = {"mode": lambda: p._user_demand["demand"], "turn": lambda: st_key, "target": lambda: "SetpointG", "unit": lambda: "TempUnits", "wc": lambda: None}[kind]()
             collateral = [(k, before[k], after[k]) for k in watched if k != target and before[k] != after[k]]
-            out.append({"snap": snap, "desc": desc, "collateral": collateral, "expr": "chk_cmd %s %s (%d, %d) (%s) [%s] (%d, %d)" % (cctx, vf.zb(blk), ctr[0], ctr[1], ck, "; ".join(lits), ctr2[0], ctr2[1]),
+            out.append({"snap": snap, "desc": desc, "collateral": collateral, "gate": (spa.is_connected, spa.is_responding_to_pings, round(loop.time() - 1000, 1)), "expr": "chk_cmd %s %s (%d, %d) (%s) [%s] (%d, %d)" % (cctx, vf.zb(blk), ctr[0], ctr[1], ck, "; ".join(lits), ctr2[0], ctr2[1]),
                         "sent": lits, "readback_ok": (check() if check else None),
                         "mirror": spa.struct.status_block == peer.sim.structure.status_block})
         await cl.close()
@@ -157,7 +157,7 @@ def run(ctx):
                 ctx.fail("command:multiple", "command %s emitted %d datagrams" % (r["desc"], len(r["sent"])), {"snapshot": snap, "command": r["desc"], "datagrams": r["sent"]})
             if r["readback_ok"] is False:
                 ctx.fail("command:readback:%s" % r["desc"][0], "after the spa's echo the client does not read the requested value (%s)" % (r["desc"],),
-                         {"snapshot": snap, "command": r["desc"], "datagrams": r["sent"]})
+                         {"snapshot": snap, "command": r["desc"], "datagrams": r["sent"], "connected_answering_time": r["gate"]})
             if r["collateral"]:
                 ctx.fail("command:collateral:%s" % r["desc"][0], "command %s also changed %s on the spa" % (r["desc"], r["collateral"][:3]),
                          {"snapshot": snap, "command": r["desc"], "datagrams": r["sent"], "also_changed": r["collateral"]})
